@@ -311,6 +311,8 @@ class Engine:
         self._trace: List[Tuple[bool, bool, str]] = []  # (taken, alt_feasible, key)
         self._vars: Dict[str, Any] = {}
         self._model: Any = None
+        self._decided: Dict[int, bool] = {}
+        self._keep: List[Any] = []
         self._fresh = 0
 
     # ---- expression helpers
@@ -451,6 +453,11 @@ class Engine:
             return True
         if z3.is_false(cond):
             return False
+        # a condition already decided on this path keeps its value (no new decision, no query)
+        neg = z3.is_not(cond)
+        cid = (cond.arg(0) if neg else cond).get_id()
+        if cid in self._decided:
+            return self._decided[cid] != neg
         i = len(self._trace)
         if i >= self.max_decisions:
             raise Inconclusive("decision budget per path exceeded")
@@ -459,6 +466,8 @@ class Engine:
             taken, alt = self._prefix[i]
             self._add(cond if taken else z3.Not(cond))
             self._trace.append((taken, alt, key))
+            self._decided[cid] = taken != neg
+            self._keep.append(cond)
             return taken
         # One side may already be known feasible from the cached model of the
         # path condition; the other side always gets a solver query.
@@ -497,6 +506,8 @@ class Engine:
         self._solver.add(cond if taken else z3.Not(cond))
         self._model = mt if taken else mf
         self._trace.append((taken, alt, key))
+        self._decided[cid] = taken != neg
+        self._keep.append(cond)  # keeps the AST (and hence its id) alive for the rest of the path
         return taken
 
     def realise(self, e: Any) -> int:
@@ -548,6 +559,8 @@ class Engine:
             self._trace = []
             self._vars = {}
             self._model = None
+            self._decided = {}
+            self._keep = []
             res = PathResult()
             try:
                 res.value = harness(self)
